@@ -1,9 +1,26 @@
 import TaurexModel.Proto
+import TaurexModel.Grid
 
 namespace Taurex.Ops.C13
-open Taurex.Proto
+open Taurex.Proto Taurex.Grid
 
-/-- operations of the C13 model served by `driver_c13` (filled in by the C13 check) -/
-def ops : List Op := []
+/-- `c13.clip native wngrid` → clipped native grid -/
+def clipOp (args : List String) : Option String :=
+  run (do
+    let native ← listOf flt
+    let wn ← listOf flt
+    if wn.length < 2 then failure
+    pure (fList fF (clipNative native wn))) args
+
+/-- `c13.opacity nativeWn vals req` → values on the requested grid -/
+def opacityOp (args : List String) : Option String :=
+  run (do
+    let nw ← listOf flt
+    let vals ← listOf flt
+    let req ← listOf flt
+    if req.isEmpty || nw.length != vals.length then failure
+    pure (fList fF (opacityOnGrid nw vals req))) args
+
+def ops : List Op := [("c13.clip", clipOp), ("c13.opacity", opacityOp)]
 
 end Taurex.Ops.C13
